@@ -456,11 +456,12 @@ ASSERT_UNORDERED_REINDEX = False   # see ASSUMPTIONS: on the current tree reinde
 
 @st.composite
 def trim_operator_cases(draw, max_n=6):
-    n = draw(st.integers(1, max_n))
-    qs = draw(st.lists(st.integers(0, n - 1), unique=True, min_size=1, max_size=max(1, n - draw(st.integers(0, 2)))))   # insertion order = drawn order
-    if draw(st.booleans()):
+    n = draw(st.sampled_from([1, 2, 3, 3, 4, 4, 5, 5, 6, 6]))
+    m = draw(st.integers(min(2, n), max(min(2, n), n - draw(st.sampled_from([0, 1, 1, 2, 2])))))
+    qs = list(draw(st.permutations(list(range(n))))[:m])                 # insertion order = drawn order
+    if draw(st.sampled_from([False, False, False, True])):
         qs = sorted(qs)
-    trim = [[q, draw(st.integers(0, 1))] for q in qs]
+    trim = [[q, draw(st.sampled_from([0, 1]))] for q in qs]
     return {"n": n, "op": draw(S.qubit_ops(n, max_terms=8)), "trim": trim, "reindex": draw(st.booleans()),
             "pass_n": draw(st.booleans()), "kept_state": draw(S.statevectors(n - len(qs), allow_none=False))}
 
